@@ -63,6 +63,7 @@ JOBS = {
         {"cmd": "c07-xproto", "race": False, "batches": {"quick": 4, "thorough": 16}, "timeout": {"quick": 600, "thorough": 2400}, "mem_kb": 8000000},
         {"cmd": "c07-match", "race": False, "timeout": {"quick": 300, "thorough": 900}},
         {"cmd": "c07-h2", "race": False, "batches": {"quick": 2, "thorough": 8}, "timeout": {"quick": 300, "thorough": 1500}},
+        {"cmd": "c07-xe2e", "race": False, "batches": {"quick": 2, "thorough": 4}, "timeout": {"quick": 600, "thorough": 2400}},
         {"cmd": "c07-e2e", "race": False, "batches": {"quick": 2, "thorough": 4}, "timeout": {"quick": 600, "thorough": 2400}},
     ],
     "C08": [
